@@ -27,12 +27,18 @@ from . import common, gen
 
 ID = "C09"
 LEAN_MODULES = ["DclabModel.Properties.C09"]
-RULE = ("join: 2-5 generated measurements (1-6 events each; dates/times with fractional seconds, "
+RULE = ("join: 2-5 generated measurements (1-14 events each; writer.CHUNK_SIZE_BYTES patched so "
+        "that non-scalar datasets have 10-event chunks and appends start at unaligned offsets and "
+        "cross chunk boundaries; in 30% of the cases two inputs are joined first and the join "
+        "output is an input of the join under test; dates/times with fractional seconds, "
         "midnight and month/year crossings, equal keys, run indices 1..11, several frame rates), "
         "feature sets differing from the base set by 0-3 features (runs of adjacent features in "
         "sorted order, features computable for some inputs only, non-scalar features), joined in "
-        "2-4 orders each; split: N in 2..12, sizes 1, 2, N//2, N-1, N, N+1, optional all-zero "
-        "first/last image, followed by join(parts). One evaluation = one join or split run whose "
+        "2-4 orders each; every log of every input file (source logs of all levels, cfg and "
+        "command logs of an input that is a join output) must be found under src-#i_<name>; "
+        "split: N in 2..26, sizes 1, 2, N//2, N-1, N, N+1, 10, random, all-zero images/contours at "
+        "random positions (first, last, interior incl. part boundaries; only the first event / "
+        "last image may be dropped), followed by join(parts). One evaluation = one join or split run whose "
         "files were compared column by column with the Python oracle and the Lean model; distinct = "
         "runs in which sorting permuted the inputs, a feature was pruned, an offset was non-zero, "
         "or the split size does not divide N.")
@@ -45,6 +51,8 @@ TRUSTED_BASE = [
 ASSUMPTIONS = ["inputs have well-formed experiment:date/time and a run index",
                "log names of different sources do not collide after prefixing"]
 NOT_PROVED = [
+    "prefix-freeness of the concrete names src-#<i>_ (hypothesis hpf of join_log_names_distinct; "
+    "name collisions would show up as merged logs in the correspondence)",
     "time/frame monotone across the seams (false in general: depends on measurement durations); "
     "proved instead: offsets are non-negative and the shifted columns are exactly col + offset",
     "tables and metadata of the joined file (correspondence-only: not compared)",
@@ -101,14 +109,30 @@ def make_file(path, m):
                   meta={"experiment": {"date": m["date"], "time": m["time"],
                                        "run index": m["run"]},
                         "imaging": {"frame rate": m["fr"]}})
-    if m.get("z0") or m.get("zN"):
+    if m.get("zero_image") or m.get("zero_contour"):
         import h5py
         with h5py.File(path, "a") as h:
-            if m.get("z0"):
-                h["events/image"][0] = 0
-            if m.get("zN"):
-                h["events/image"][len(m["tokens"]) - 1] = 0
+            for i in m.get("zero_image", []):
+                h["events/image"][i] = 0
+            for i in m.get("zero_contour", []):
+                c = h["events/contour"][str(i)]
+                c[...] = 0
     return path
+
+
+def set_chunk_bytes(nbytes):
+    """`writer.CHUNK_SIZE_BYTES` (module constant, patched from outside): with 1 byte every
+    non-scalar dataset gets the minimal chunk of 10 events, so that appends and filtered exports
+    of a dozen events cross chunk boundaries at unaligned offsets"""
+    common.import_dclab()
+    from dclab.rtdc_dataset import writer
+    if nbytes:
+        writer.CHUNK_SIZE_BYTES = nbytes
+
+
+def line_hash(line):
+    import hashlib
+    return hashlib.sha1(str(line).encode()).hexdigest()[:10]
 
 
 def read_cols(ds, feats, universe):
@@ -145,7 +169,10 @@ def read_file(path, feats, universe, avail_of=()):
     with dclab.new_dataset(path) as ds:
         innate = sorted(ds.features_innate)
         want = innate if feats is None else [f for f in feats if f in ds.features]
+        ex, im = ds.config["experiment"], ds.config["imaging"]
         info = {"n": len(ds), "innate": innate,
+                "stamp": {"date": ex["date"], "time": ex["time"], "run": int(ex["run index"]),
+                          "fr": float(im["frame rate"])},
                 "avail": sorted(f for f in avail_of if f in ds.features),
                 "cols": read_cols(ds, sorted(set(want) | {"index"}), universe),
                 "logs": {k: list(ds.logs[k]) for k in ds.logs.keys()}}
@@ -164,10 +191,25 @@ def run_join_case(spec, workdir):
     d = pathlib.Path(workdir)
     shutil.rmtree(d, ignore_errors=True)
     d.mkdir(parents=True)
+    set_chunk_bytes(spec.get("chunk_bytes"))
     universe = sorted(set(t for m in spec["inputs"] for t in m["tokens"]))
     paths = [make_file(d / f"in{i}.rtdc", m) for i, m in enumerate(spec["inputs"])]
     union = sorted(set(f for m in spec["inputs"] for f in m["feats"]))
-    res = {"inputs": [read_file(p, union, universe, avail_of=union) for p in paths], "runs": []}
+    res = {"inputs": [], "runs": [], "pre_error": None}
+    if spec.get("pre_join"):
+        # history: the inputs listed in `pre_join` are joined first; the result replaces them as
+        # input number 0 of the joins under test
+        pre = d / "in_pre.rtdc"
+        try:
+            cli.join(paths_in=[paths[i] for i in spec["pre_join"]], path_out=pre)
+        except Exception as e:  # noqa
+            res["pre_error"] = err_str(e)
+            res["runs"] = [{"order": o, "error": res["pre_error"], "out": None,
+                            "kind": common.err_class(e)} for o in spec["orders"]]
+            shutil.rmtree(d, ignore_errors=True)
+            return res
+        paths = [pre] + [p for i, p in enumerate(paths) if i not in spec["pre_join"]]
+    res["inputs"] = [read_file(p, union, universe, avail_of=union) for p in paths]
     for j, order in enumerate(spec["orders"]):
         out = d / f"out{j}.rtdc"
         run = {"order": order, "error": None, "out": None}
@@ -175,7 +217,8 @@ def run_join_case(spec, workdir):
             cli.join(paths_in=[paths[i] for i in order], path_out=out)
             info = read_file(out, None, universe)
             files = json.loads("\n".join(info["logs"].get("dclab-join", ["{}"]))).get("files", [])
-            info["order"] = [int(re.match(r"in(\d+)\.rtdc", f["name"]).group(1)) for f in files]
+            names = [p.name for p in paths]
+            info["order"] = [names.index(f["name"]) for f in files]
             info["temp_left"] = out.with_suffix(".rtdc~").exists()
             run["out"] = info
         except Exception as e:  # noqa
@@ -192,6 +235,7 @@ def run_split_case(spec, workdir):
     d = pathlib.Path(workdir)
     shutil.rmtree(d, ignore_errors=True)
     d.mkdir(parents=True)
+    set_chunk_bytes(spec.get("chunk_bytes"))
     m = spec["input"]
     universe = sorted(set(m["tokens"]))
     p = make_file(d / "x.rtdc", m)
@@ -260,11 +304,16 @@ def gen_join_case(rng, thorough):
         base |= {"aspect", "size_x", "size_y"}
     if rng.random() < 0.5:
         base |= {"time", "frame"}
-    if rng.random() < 0.25:
+    nonscal = rng.random() < 0.5
+    if nonscal:
         base.add(rng.choice(NONSCAL))
     if rng.random() < 0.3:
         base.add("index")
     base = sorted(base)
+    # minimal HDF5 chunks (10 events) and up to 14 events per input: appends of non-scalar data
+    # start at unaligned offsets and cross chunk boundaries
+    chunk_bytes = rng.choice([1, 1, None])
+    nmax = 14 if (nonscal and chunk_bytes) else 6
     scen = rng.choice(list(STAMPS))
     stamps = [rng.choice(STAMPS[scen]) for _ in range(k)]
     if scen == "ties":
@@ -288,10 +337,14 @@ def gen_join_case(rng, thorough):
                 feats.append(extra)
         if not feats:
             feats = ["deform"]
-        n = rng.randint(1, 6)
+        n = rng.randint(1, nmax)
         inputs.append({"tokens": [20 * i + t for t in range(n)], "feats": sorted(feats),
                        "date": stamps[i][0], "time": stamps[i][1], "run": runs[i],
                        "fr": rng.choice(FRAME_RATES), "logs": gen_logs(rng, i)})
+    pre_join = None
+    if k >= 3 and rng.random() < 0.3:      # history: two of the inputs were joined before
+        pre_join = rng.sample(range(k), 2)
+        k -= 1
     ident = list(range(k))
     orders = [ident, ident[::-1]]
     if thorough and k <= 4:
@@ -305,7 +358,8 @@ def gen_join_case(rng, thorough):
     for o in orders:
         if o not in uniq:
             uniq.append(o)
-    return {"kind": "join", "scenario": scen, "inputs": inputs, "orders": uniq}
+    return {"kind": "join", "scenario": scen, "inputs": inputs, "orders": uniq,
+            "pre_join": pre_join, "chunk_bytes": chunk_bytes}
 
 
 def fixed_join_cases():
@@ -323,52 +377,81 @@ def fixed_join_cases():
         meas([20, 21], ["deform", "frame", "time"], tme="12:00:00.5")]}
     one = {"kind": "join", "scenario": "single", "orders": [[0]], "inputs": [
         meas([0, 1], ["deform"])]}
-    return [f10, f11, one]
+    # histories: a join output is joined again, as the earliest and as a later input
+    nested = []
+    for name, t3 in (("nested-first", "12:00:05"), ("nested-later", "11:00:00")):
+        nested.append({"kind": "join", "scenario": name, "orders": [[0, 1], [1, 0]],
+                       "pre_join": [0, 1], "chunk_bytes": 1, "inputs": [
+                           meas(list(range(7)), ["deform", "image", "time"], tme="12:00:00"),
+                           meas(list(range(20, 29)), ["deform", "image", "time"], tme="12:00:01",
+                                logs={"log0": ["c"], "log1": ["d", "e"]}),
+                           meas(list(range(40, 46)), ["deform", "image", "time"], tme=t3,
+                                logs={"log0": ["f"]})]})
+    return [f10, f11, one] + nested
 
 
 def gen_split_case(rng, thorough):
-    n = rng.randint(2, 12 if not thorough else 20)
     feats = set(rng.sample(SCAL, rng.randint(2, 6)))
-    if rng.random() < 0.5:
+    nonscal = rng.random() < 0.6
+    if nonscal:
         feats |= set(rng.sample(NONSCAL, rng.randint(1, 2)))
     if rng.random() < 0.3:
         feats.add("index")
-    z0 = zN = False
-    if "image" in feats and n >= 3 and rng.random() < 0.6:
-        z0, zN = rng.choice([(True, False), (False, True), (True, True)])
+    chunk_bytes = rng.choice([1, 1, None])
+    n = rng.randint(2, 26 if (nonscal and chunk_bytes) else (12 if not thorough else 20))
+    # all-zero images / contours anywhere in the measurement (only an empty *first* event and an
+    # empty *last* image are "boundary" events that split may drop)
+    zero_image, zero_contour = [], []
+    if "image" in feats and n >= 3 and rng.random() < 0.7:
+        zero_image = sorted(set(rng.choice([0, n - 1, rng.randrange(n), rng.randrange(n)])
+                                for _ in range(rng.randint(1, 3))))
+    if "contour" in feats and n >= 3 and rng.random() < 0.5:
+        zero_contour = sorted(set(rng.choice([0, rng.randrange(n), rng.randrange(n)])
+                                  for _ in range(rng.randint(1, 2))))
+    z0 = 0 in zero_image or 0 in zero_contour
+    zN = (n - 1) in zero_image
     sizes = sorted({1, 2, max(1, n // 2), n - 1, n, n + 1} - {0})
+    if n > 12:
+        sizes = sorted(set(sizes) | {10, rng.randint(3, n - 2)})
+    # a part consisting only of a dropped boundary event makes split fail (recorded observation)
     if z0:
         sizes = [s for s in sizes if s > 1]
     if zN:
         sizes = [s for s in sizes if s > 1 and n % s != 1]
+    if z0 and zN and n == 2:
+        sizes = []
     stamp = rng.choice(STAMPS["frac"] + STAMPS["midnight"])
-    return {"kind": "split", "sizes": sizes, "roundtrip": not (z0 or zN), "input": {
+    return {"kind": "split", "sizes": sizes, "roundtrip": not (z0 or zN),
+            "chunk_bytes": chunk_bytes, "input": {
         "tokens": list(range(5, 5 + n)), "feats": sorted(feats), "date": stamp[0],
         "time": stamp[1], "run": rng.choice([1, 3, 10]), "fr": rng.choice(FRAME_RATES),
-        "logs": gen_logs(rng, 0), "z0": z0, "zN": zN}}
+        "logs": gen_logs(rng, 0), "z0": z0, "zN": zN, "zero_image": zero_image,
+        "zero_contour": zero_contour}}
 
 
 # ---------------------------------------------------------------------------------------
 # property oracle (Python, exact)
-def key_of(m):
-    days, sec = stamp_seconds(m["date"], m["time"])
-    return (days * 86400 + sec, m["run"])
+def key_of(info):
+    """(acquisition time stamp, run index) from the metadata stored in the input file"""
+    st = info["stamp"]
+    days, sec = stamp_seconds(st["date"], st["time"])
+    return (days * 86400 + sec, st["run"])
 
 
 def oracle_join(spec, res, order):
     """expected joined file for `order` (indices into spec['inputs']); None = must raise"""
     if len(order) < 2:
         return None
-    ms = [(i, spec["inputs"][i], res["inputs"][i]) for i in order]
-    ms.sort(key=lambda e: key_of(e[1]))             # stable
-    t0 = key_of(ms[0][1])[0]
+    ms = [(i, res["inputs"][i]["stamp"], res["inputs"][i]) for i in order]
+    ms.sort(key=lambda e: key_of(e[2]))             # stable
+    t0 = key_of(ms[0][2])[0]
     first = ms[0][2]
     feats = [f for f in first["innate"] if all(f in e[2]["avail"] or f in e[2]["innate"]
                                                 for e in ms[1:])]
     cols = {f: [] for f in feats}
     total = 0
     for pos, (i, m, info) in enumerate(ms):
-        ti = key_of(m)[0] - t0
+        ti = key_of(info)[0] - t0
         for f in feats:
             c = info["cols"][f]
             if f == "time":
@@ -383,18 +466,26 @@ def oracle_join(spec, res, order):
     cols["index"] = [str(v) for v in range(1, total + 1)]
     logs = {}
     for pos, (i, m, info) in enumerate(ms):
-        for name, lines in m["logs"].items():
+        # every log found in the input file (for an input that is itself a join output these are
+        # the prefixed logs of its own sources, its cfg logs and its command log)
+        for name, lines in info["logs"].items():
             logs[f"src-#{pos + 1}_{name}"] = list(lines)
     return {"order": [e[0] for e in ms], "feats": feats, "cols": cols, "logs": logs,
-            "n": total, "offsets": [rstr(key_of(e[1])[0] - t0) for e in ms]}
+            "n": total, "offsets": [rstr(key_of(e[2])[0] - t0) for e in ms],
+            "k": len(ms)}
 
 
-def src_logs(logs):
-    return {k: v for k, v in logs.items() if re.match(r"src-#\d+_", k) and not k.endswith("_cfg")}
+def src_logs(logs, k=99):
+    """source logs of a joined file: everything named `src-#i_…` except the k configuration
+    logs `src-#i_cfg` that join itself adds"""
+    own = {f"src-#{i}_cfg" for i in range(1, k + 1)}
+    return {n: v for n, v in logs.items() if re.match(r"src-#\d+_", n) and n not in own}
 
 
 def check_join_run(spec, res, run):
     """→ list of property failures (strings) of one join run"""
+    if res.get("pre_error"):
+        return [f"join raised {res['pre_error']} (first-level join)"]
     exp = oracle_join(spec, res, run["order"])
     if exp is None:
         return [] if run["error"] and run["error"].startswith("ValueError") else \
@@ -422,10 +513,14 @@ def check_join_run(spec, res, run):
                        f"({len(a)} / {len(b)} events)")
     if out["n"] != exp["n"]:
         bad.append(f"{out['n']} events instead of {exp['n']}")
-    got = src_logs(out["logs"])
+    got = src_logs(out["logs"], exp["k"])
     for name, lines in exp["logs"].items():
         if got.get(name) != lines:
-            bad.append(f"log {name}: {got.get(name)} instead of {lines}")
+            bad.append(f"log {name}: {str(got.get(name))[:80]} instead of {str(lines)[:80]}")
+            break
+    extra = sorted(set(got) - set(exp["logs"]))
+    if extra:
+        bad.append(f"unexpected source logs {extra[:4]}")
     if out.get("temp_left"):
         bad.append("temporary file left behind after a successful join")
     return bad
@@ -481,16 +576,16 @@ def check_split_run(spec, res, run):
 
 # ---------------------------------------------------------------------------------------
 # model side
-def meas_lines(tag, m, info, feats):
-    fr = Fraction(m["fr"])
-    lines = [f"meas {tag} {m['date']} {m['time']} {m['run']} {rstr(fr)}",
+def meas_lines(tag, info, feats):
+    st = info["stamp"]
+    lines = [f"meas {tag} {st['date']} {st['time']} {st['run']} {rstr(Fraction(st['fr']))}",
              "innate " + (",".join(info["innate"]) or "-"),
              "avail " + (",".join(sorted(set(info["avail"]) | set(info["innate"]))) or "-")]
     for f in sorted(set(feats) | {"index"}):
         if f in info["cols"]:
             lines.append(f"col {f} " + (",".join(info["cols"][f]) or "-"))
-    for name, ls in m["logs"].items():
-        lines.append(f"log {name} " + (",".join(ls) or "-"))
+    for name, ls in info["logs"].items():
+        lines.append(f"log {name} " + (",".join(line_hash(x) for x in ls) or "-"))
     return lines
 
 
@@ -499,14 +594,14 @@ def model_lines(spec, res):
     lines, marks = ["reset"], []
     if spec["kind"] == "join":
         union = sorted(set(f for m in spec["inputs"] for f in m["feats"]))
-        for i, (m, info) in enumerate(zip(spec["inputs"], res["inputs"])):
-            lines += meas_lines(i, m, info, union)
+        for i, info in enumerate(res["inputs"]):
+            lines += meas_lines(i, info, union)
         for run in res["runs"]:
             marks.append(len(lines))
             lines.append("join " + " ".join(str(i) for i in run["order"]))
     else:
         m, x = spec["input"], res["input"]
-        lines += meas_lines(0, m, x, x["innate"])
+        lines += meas_lines(0, x, x["innate"])
         for run in res["runs"]:
             marks.append(len(lines))
             lines.append(f"split {x['n']} {run['s']} {int(bool(m.get('z0')))} "
@@ -549,8 +644,12 @@ def mirror_join(run, ans):
     for f, c in mod["cols"].items():
         if f in out["cols"] and out["cols"][f] != c:
             diffs.append(f"column {f}: model {c[:8]} impl {out['cols'][f][:8]}")
-    if mod["logs"] != src_logs(out["logs"]):
-        diffs.append(f"logs: model {sorted(mod['logs'])} impl {sorted(src_logs(out['logs']))}")
+    impl_logs = {n: [line_hash(x) for x in v]
+                 for n, v in src_logs(out["logs"], len(out["order"])).items()}
+    if mod["logs"] != impl_logs:
+        names = sorted(set(mod["logs"]) ^ set(impl_logs)) or \
+            [n for n in mod["logs"] if mod["logs"][n] != impl_logs.get(n)]
+        diffs.append(f"logs differ: {names[:4]}")
     return diffs
 
 
@@ -580,6 +679,8 @@ def mirror_split(spec, res, run, ans_split, ans_rt):
 
 # ---------------------------------------------------------------------------------------
 def nontrivial_join(spec, res, run):
+    if res.get("pre_error"):
+        return False
     exp = oracle_join(spec, res, run["order"])
     if exp is None:
         return False
@@ -596,7 +697,10 @@ def shrink_join(spec, order, workdir, failing):
     def fails(sp):
         r = run_join_case(sp, workdir)
         return bool(check_join_run(sp, r, r["runs"][0]))
+    if spec.get("pre_join"):        # histories are replayed as generated
+        return dict(spec, orders=[order])
     cur = {"kind": "join", "scenario": spec.get("scenario"), "orders": [list(range(len(order)))],
+           "chunk_bytes": spec.get("chunk_bytes"),
            "inputs": [json.loads(json.dumps(spec["inputs"][i])) for i in order]}
     budget = [min(15, SHRINK_BUDGET[0])]
 
@@ -611,7 +715,7 @@ def shrink_join(spec, order, workdir, failing):
             return False
     if not attempt(cur):
         return {"kind": "join", "scenario": spec.get("scenario"), "inputs": spec["inputs"],
-                "orders": [order]}
+                "orders": [order], "chunk_bytes": spec.get("chunk_bytes")}
     changed = True
     while changed and budget[0] > 0:
         changed = False
@@ -650,7 +754,7 @@ def evaluate(ctx, spec, res, answers, workdir, collect_mirror):
         for ri, run in enumerate(res["runs"]):
             bad = check_join_run(spec, res, run)
             nt = nontrivial_join(spec, res, run)
-            ctx.case(("join", spec["inputs"], run["order"]), nontrivial=nt,
+            ctx.case(("join", spec["inputs"], spec.get("pre_join"), run["order"]), nontrivial=nt,
                      sample={"kind": "join", "scenario": spec.get("scenario"),
                              "stamps": [(m["date"], m["time"], m["run"]) for m in spec["inputs"]],
                              "order_given": run["order"],
@@ -659,6 +763,11 @@ def evaluate(ctx, spec, res, answers, workdir, collect_mirror):
                              "model": (answers[ri][:160] if answers else None)} if nt else None)
             ctx.stat(f"join:k={len(run['order'])}")
             ctx.stat(f"join:scenario={spec.get('scenario')}")
+            if spec.get("pre_join"):
+                ctx.stat("join:input-is-a-join-output")
+            if run["out"] and spec.get("chunk_bytes") and run["out"]["n"] > 10 and \
+                    set(run["out"]["innate"]) & set(NONSCAL):
+                ctx.stat("join:non-scalar-append-across-chunk-boundary")
             if run["out"]:
                 first = res["inputs"][run["out"]["order"][0]] if run["out"]["order"] else None
                 if first and len(run["out"]["innate"]) < len(first["innate"]):
@@ -687,6 +796,10 @@ def evaluate(ctx, spec, res, answers, workdir, collect_mirror):
                                  "divides" if x["n"] % run["s"] == 0 else "remainder"))
             if spec["input"].get("z0") or spec["input"].get("zN"):
                 ctx.stat("split:empty-boundary-image")
+            zi = set(spec["input"].get("zero_image", [])) | set(spec["input"].get("zero_contour", []))
+            if any(0 < j < x["n"] - 1 and (j % run["s"] == 0 or j % run["s"] == run["s"] - 1)
+                   for j in zi):
+                ctx.stat("split:empty-image-at-interior-part-boundary")
             if run["rt"] is not None:
                 ctx.stat("split:roundtrip")
             if bad:
